@@ -255,6 +255,24 @@ def _cleanup(ctx):
     n = word_tables(ctx)
     cd = ctx.repo.func('plss_parse:cleanup_desc')
     ctx.attempt(stripset, [cd])
+    # the words cleanup_desc may cut from the end of a block without a flag:
+    # the connectors accepted by design on the pinned tree.  Any further word
+    # in the table is a word that can vanish silently (the property's
+    # "inserted word disappears" case), so an addition is reported by word.
+    accepted = {'the', 'all in', 'all of', 'of', 'in', 'and'}
+    for x in walk_local(cd.node):
+        if isinstance(x, ast.Assign) and norm(x.targets[0]) == 'cull_list':
+            val = ctx.fold.eval(x.value, {}, cd.module.name)
+            if is_unknown(val):
+                ctx.undecided('SINK', 'cleanup_desc: cull vocabulary', 'cull_list does not fold')
+                continue
+            words = {str(w).strip().lower() for w in val}
+            extra = sorted(w for w in words - accepted if any(ch.isalnum() for ch in w))
+            ctx.check(not extra, 'SINK', 'cleanup_desc culls only the accepted trailing connectors',
+                      f"{sorted(words)}",
+                      f"cull_list also drops {extra}: such a word at the end of a block disappears from the "
+                      f"description with no unused-text flag",
+                      key=f"SINK|cleanup_desc|vocabulary|{','.join(extra)}", where=common.loc(cd, x))
     loops = [n_ for n_ in walk_local(cd.node) if isinstance(n_, ast.For) and norm(n_.iter) == 'cull_list']
     if len(loops) != 1:
         raise AnalysisError("cleanup_desc: cull loop not found")
